@@ -696,6 +696,56 @@ example (sh : Shared) :
   keeps_answering_other_clients sh _ [] 1 [[118, 50, 47, 112], [114, 13, 10]] [] rfl rfl
 
 
+/-- **accepted_connections_invisible.** A socket the listener has accepted and on which nothing
+has arrived yet (`Ev.accept`: a client that connects and stays silent) is invisible: striking
+every `accept` event out of any interleaving changes no output on any socket and no task's state —
+neither the silent socket's own later answer nor anybody else's. (In `start_server` the accept
+loop does nothing per socket before `tokio::spawn`; a change that makes it wait for the socket's
+first byte breaks exactly this, and the run then shows a silent connection holding up the
+connections accepted after it.) -/
+theorem accepted_connections_invisible (sh : Shared) (evs : List (Nat × Ev)) (σ : Conns) (i : Nat) :
+    outsOf i (srvRun sh σ evs).2 = outsOf i (srvRun sh σ (evs.filter (fun p => p.2 ≠ .accept))).2 ∧
+    getConn (srvRun sh σ evs).1 i = getConn (srvRun sh σ (evs.filter (fun p => p.2 ≠ .accept))).1 i := by
+  have a := srvRun_proj sh evs σ i
+  have b := srvRun_proj sh (evs.filter (fun p => p.2 ≠ .accept)) σ i
+  rw [proj_filter_accept, connRun_filter_accept] at b
+  exact ⟨a.2.trans b.2.symm, a.1.trans b.1.symm⟩
+
+/-- **silent_then_request_answered.** A socket that was accepted, stayed silent for however long
+(any events on any other sockets in between, among them further silent sockets) and then sends
+its line, in any segmentation, is answered exactly as a connection that sends at once. -/
+theorem silent_then_request_answered (sh : Shared) (evs : List (Nat × Ev)) (σ : Conns) (j : Nat)
+    (chunks : List (List Nat)) (rest : List Ev) (hfresh : getConn σ j = .reading [])
+    (hproj : proj j evs = .accept :: (chunks.map .data ++ rest)) (hlf : 10 ∈ chunks.flatten) :
+    outsOf j (srvRun sh σ evs).2 = [answer sh (firstLine chunks.flatten)] := by
+  rw [(srvRun_proj sh evs σ j).2, hfresh, hproj, connRun_accept,
+    connRun_line sh chunks rest [] (by simp) hlf]
+  simp
+
+/-- a socket that is accepted and never sends a byte is not answered and stays in `read_line`
+with an empty buffer until its peer closes or the timeout fires — then it is closed, no reply. -/
+theorem silent_connection_closed_quietly (sh : Shared) (evs : List (Nat × Ev)) (σ : Conns) (j : Nat)
+    (e : Ev) (he : e = .eof ∨ e = .timeout) (rest : List Ev) (hfresh : getConn σ j = .reading [])
+    (hproj : proj j evs = .accept :: e :: rest) :
+    outsOf j (srvRun sh σ evs).2 = [.closed] := by
+  rw [(srvRun_proj sh evs σ j).2, hfresh, hproj, connRun_accept]
+  rcases he with rfl | rfl <;> simp [connRun, connStep, connRun_done]
+
+/-- hypotheses satisfiable, non-trivially — the zero-byte neighbour FIRST: socket 0 is accepted
+and sends nothing at all, socket 3 likewise; socket 1, accepted after them, sends a request in two
+segments, half-closes, and gets the reply it would get alone; socket 0 then sends its own line
+and is answered too. -/
+example (sh : Shared) :
+    let evs : List (Nat × Ev) :=
+      [(0, .accept), (3, .accept), (1, .accept), (1, .data [118, 50, 47, 112]),
+       (1, .data [114, 13, 10]), (1, .eof), (0, .data [118, 49, 47, 120, 10])]
+    outsOf 1 (srvRun sh [] evs).2 = [answer sh (firstLine [118, 50, 47, 112, 114, 13, 10])] ∧
+    outsOf 0 (srvRun sh [] evs).2 = [answer sh (firstLine [118, 49, 47, 120, 10])] ∧
+    outsOf 3 (srvRun sh [] evs).2 = [] :=
+  ⟨silent_then_request_answered sh _ [] 1 [[118, 50, 47, 112], [114, 13, 10]] [.eof] rfl rfl (by decide),
+   silent_then_request_answered sh _ [] 0 [[118, 49, 47, 120, 10]] [] rfl rfl (by decide),
+   by rw [(srvRun_proj sh _ [] 3).2]; rfl⟩
+
 
 /-! ### HTTP routing table -/
 
